@@ -1,6 +1,6 @@
 CONSTANTS
   N = 3
-  MaxCmd = 2
+  MaxCmd = 1
   MaxVar = 1
   NCtx = 0
   Nesting = FALSE
@@ -8,7 +8,7 @@ CONSTANTS
   AtomicLaunch = TRUE
   CondErr = TRUE
   ErrFirst = TRUE
-  HookKinds = {"none", "ok"}
+  HookKinds = {"none"}
 SPECIFICATION Spec
 INVARIANTS CommandsAfterDependencies StopsAtFailure FinalOK CancelledFinal QuietAfterCancel RunOnlyWhileStageRunning UpBeforeUse DownAfterAll OneUpAtATime NothingRunsAtReturn NoDoubleLaunch
 PROPERTY Terminates
